@@ -106,13 +106,52 @@ def walk(e, anc=()):
             yield from walk(c, a2)
 
 
+def diverges(e):
+    """does control never fall out of the end of this expression (return / break / continue / panic on every path)?"""
+    if not isinstance(e, dict):
+        return False
+    k = e.get('k')
+    if k in ('return', 'break', 'continue'):
+        return True
+    if k == 'block':
+        if any(diverges(st) for st in e.get('stmts', [])):
+            return True
+        return diverges(e.get('tail')) if 'tail' in e else False
+    if k == 'if':
+        return 'else' in e and diverges(e['then']) and diverges(e['else'])
+    if k == 'match':
+        return bool(e.get('arms')) and all(diverges(a['body']) for a in e['arms'])
+    if k == 'call':
+        c = callee(e)
+        return c.startswith(('core::panicking::', 'std::rt::begin_panic', 'std::rt::panic_', 'std::process::exit', 'std::process::abort'))
+    if k in ('let',):
+        return False
+    return False
+
+
 def guards(chain):
     """chain = ancestors + (node,): the conditions under which node executes, outermost first.
-    Items: ('if', cond_expr, True|False)  |  ('match', scrut_expr, arm)  |  ('loop', node)  |  ('closure', node)"""
+    Items: ('if', cond_expr, True|False)  |  ('match', scrut_expr, arm)  |  ('loop', node)  |  ('closure', node)
+    Guard clauses count: a statement `if c { ..diverges.. }` earlier in an enclosing block contributes ('if', c, False) to
+    everything after it, so `if !ok { return } rest` and `if ok { rest }` look alike to the rules."""
     out = []
     for i in range(len(chain) - 1):
         a, nxt = chain[i], chain[i + 1]
         k = a.get('k')
+        if k == 'block':
+            stmts = a.get('stmts', [])
+            upto = len(stmts)
+            for j, st in enumerate(stmts):
+                if st is nxt:
+                    upto = j
+                    break
+            for st in stmts[:upto]:
+                if isinstance(st, dict) and st.get('k') == 'if' and (st['cond'].get('k') == 'lit' or st.get('x')):
+                    continue     # `if false { .. }` artefacts of #[instrument] and other expansions
+                if isinstance(st, dict) and st.get('k') == 'if' and diverges(st.get('then')) and ('else' not in st or not diverges(st['else'])):
+                    out.append(('if', st['cond'], False))
+                elif isinstance(st, dict) and st.get('k') == 'if' and 'else' in st and diverges(st['else']) and not diverges(st.get('then')):
+                    out.append(('if', st['cond'], True))
         if k == 'if':
             if nxt is a.get('then'):
                 out.append(('if', a['cond'], True))
@@ -286,6 +325,19 @@ class Crate:
                 and h['tail']['ckind'].startswith('coroutine'):
             return self.fns.get(h['tail']['def'], f)
         return f
+
+    def walk_fn_deep(self, f, exclude=(), depth=2, _seen=None):
+        """like walk_fn, but also enters the bodies of functions of this crate that f calls (private helpers), bounded depth;
+        yields (node, ancestors, owner_fn).  `exclude`: callee paths not to enter (the functions a rule treats as events)."""
+        _seen = _seen if _seen is not None else {f.path}
+        for n, a in self.walk_fn(f):
+            yield n, a, f
+            if depth > 0 and n.get('k') == 'call':
+                c = callee(n)
+                g = self.fns.get(c)
+                if g is not None and c not in exclude and c not in _seen and getattr(g, 'hir', None) is not None and g.kind != 'Closure':
+                    _seen.add(c)
+                    yield from self.walk_fn_deep(g, exclude, depth - 1, _seen)
 
     def walk_fn(self, f, inline_closures=True, skip=None):
         """walk a function's HIR; closure bodies (async blocks, #[instrument] wrappers, plain closures) are entered
